@@ -22,9 +22,11 @@ import (
 	"context"
 	"crypto/ecdsa"
 	"errors"
+	"flag"
 	"fmt"
 	"io"
 	"os"
+	"strconv"
 	"strings"
 	"testing"
 
@@ -777,9 +779,6 @@ func TestVerifC23Split(t *testing.T) {
 
 			w, err := vc23Run(svc, addr, q)
 			if msg := vc23Check(q, w, err, payload, lay.parent); msg != "" {
-				if fp := vc23KnownClass(lay, linkMode, q, off, ln, oor, w, err); fp != "" && rec.Known(fp) {
-					continue
-				}
 				t.Fatalf("C23 violation: %s\nlayout=%s children=%v link=%s allLocal=%t\nquery=%s", msg, lay.kind, vc23ChildSizes(lay), linkMode, allLocal, q)
 			}
 		}
@@ -794,26 +793,6 @@ func vc23ChildSizes(l *vc23Layout) []int {
 	return r
 }
 
-// vc23KnownClass maps a failure to the fingerprint of a suspected-defect class
-// (honoured only when the coordinator lists it in known_findings.json).
-func vc23KnownClass(lay *vc23Layout, linkMode string, q vc23Query, off, ln uint64, oor bool, w *vc23Writer, err error) string {
-	viaLast := linkMode == "last-only" || linkMode == "dangling-link"
-	switch {
-	case lay.kind == "v2" && viaLast && q.Mode != common.PayloadRangeModeNone && !oor && err == nil && w.buf.Len() == 0 && ln > 0:
-		// processV2Last never initialises exec.curOff, so buildChainInReverse stops at once
-		return "C23:v2-range-via-last-part-returns-no-bytes"
-	case lay.kind == "v1" && linkMode == "last-only" && q.Mode != common.PayloadRangeModeNone && !oor && err == nil:
-		// initFromChild leaves lastChildRange = (0,0) when the range ends before the last
-		// child; assemble() then reads the last child with range (0,0) = its WHOLE payload
-		lastPld := lay.children[len(lay.children)-1].Payload()
-		lastStart := uint64(len(lay.payload) - len(lastPld))
-		if off+ln <= lastStart && bytes.Equal(w.buf.Bytes(), append(append([]byte(nil), lay.payload[off:off+ln]...), lastPld...)) {
-			return "C23:v1-range-via-last-part-appends-whole-last-child"
-		}
-	}
-	return ""
-}
-
 // TestVerifC23Engine repeats the split check with the REAL storage engine as the
 // local storage (WithLocalStorageEngine): split info comes from the metabase,
 // ranges are cut by FSTree. It confirms that the in-memory fakes of
@@ -821,7 +800,19 @@ func vc23KnownClass(lay *vc23Layout, linkMode string, q vc23Query, off, ln uint6
 func TestVerifC23Engine(t *testing.T) {
 	rec := ev.New("C23", "engine")
 	defer rec.Flush()
+	// a real engine per case costs ~100 ms: spend 1/25 of the unit's case budget here
+	budget := 40
+	if f := flag.Lookup("rapid.checks"); f != nil {
+		if n, err := strconv.Atoi(f.Value.String()); err == nil {
+			budget = max(20, n/25)
+		}
+	}
+	done := 0
 	rapid.Check(t, func(t *rapid.T) {
+		if done >= budget {
+			return
+		}
+		done++
 		limit := rapid.IntRange(1, 64).Draw(t, "limit")
 		if rapid.IntRange(0, 2).Draw(t, "bigLimit") == 0 {
 			limit = rapid.IntRange(1<<10, 4<<10).Draw(t, "limitBig")
@@ -898,9 +889,6 @@ func TestVerifC23Engine(t *testing.T) {
 			rec.Case(cross > 0, fmt.Sprintf("%s|%v|%s|%s", lay.kind, lay.bounds, linkMode, q), labels...)
 			w, err := vc23Run(svc, addr, q)
 			if msg := vc23Check(q, w, err, payload, lay.parent); msg != "" {
-				if fp := vc23KnownClass(lay, linkMode, q, off, ln, oor, w, err); fp != "" && rec.Known(fp) {
-					continue
-				}
 				t.Fatalf("C23 violation (real engine): %s\nlayout=%s children=%v link=%s\nquery=%s", msg, lay.kind, vc23ChildSizes(lay), linkMode, q)
 			}
 		}
@@ -1193,50 +1181,10 @@ func TestVerifC23EC(t *testing.T) {
 
 			w, err := vc23Run(svc, addr, q)
 			if msg := vc23Check(q, w, err, payload, &parHdr); msg != "" {
-				if fp := vc23KnownClassEC(rules, missDesc, q, err); fp != "" && rec.Known(fp) {
-					continue
-				}
 				t.Fatalf("C23 violation (EC): %s\nrules=%v len=%d cbf=%d missing(rule/part)=%v role=%s\nquery=%s", msg, rules, n, cbf, missDesc, role, q)
 			}
 		}
 	})
-}
-
-func vc23KnownClassEC(rules []iec.Rule, missing []string, q vc23Query, err error) string {
-	miss := map[string]bool{}
-	for _, m := range missing {
-		miss[m] = true
-	}
-	allDataMissing := false // in some rule
-	for ri, r := range rules {
-		all := true
-		for pi := 0; pi < int(r.DataPartNum); pi++ {
-			all = all && miss[fmt.Sprintf("%d/%d", ri, pi)]
-		}
-		allDataMissing = allDataMissing || all
-	}
-	// every rule either lost its part #0 or is beyond repair
-	noRuleWithPart0 := true
-	for ri, r := range rules {
-		lost := 0
-		for pi := 0; pi < int(r.DataPartNum+r.ParityPartNum); pi++ {
-			if miss[fmt.Sprintf("%d/%d", ri, pi)] {
-				lost++
-			}
-		}
-		if lost <= int(r.ParityPartNum) && !miss[fmt.Sprintf("%d/0", ri)] {
-			noRuleWithPart0 = false
-		}
-	}
-	switch {
-	case q.Mode != common.PayloadRangeModeNone && noRuleWithPart0 && err != nil && strings.Contains(err.Error(), "resolve parent payload length"):
-		// copyECObjectRangeByRule learns the parent payload length from part #0 only
-		return "C23:ec-range-part0-missing"
-	case q.Mode == common.PayloadRangeModeNone && allDataMissing:
-		// restoreFromECPartsByRule takes the parent header from data parts only
-		return "C23:ec-get-all-data-parts-missing"
-	}
-	return ""
 }
 
 var _ = strings.Contains
